@@ -295,10 +295,20 @@ def history(ctx, hseed):
         ctx.inconclusive("trivial-history")
 
 
-def subst_model(m, by_id):
-    if m[2] in by_id:
-        return by_id[m[2]]
-    return [m[0], None if m[1] is None else [subst_model(c, by_id) for c in m[1]], m[2]]
+def subst_model(m, items):
+    """DerivationTree.substitute as its comments describe it: keys are matched by id; a key whose id occurs inside any
+    replacement (other than as that replacement's root) is dropped ("nested" replacements); the rest is applied one after
+    the other, each at the first node carrying the key's id"""
+    keep = {}
+    for kid, sv in items:
+        if all(sv2[2] == kid or kid not in TM.ids(sv2) for _, sv2 in items):
+            keep[kid] = sv
+    res = m
+    for kid, sv in keep.items():
+        p = next((p for p, n in TM.walk(res) if n[2] == kid), None)
+        if p is not None:
+            res = TM.replace(res, p, sv)
+    return res
 
 
 def insitu_slice(ctx, rng):
@@ -326,7 +336,7 @@ def insitu_slice(ctx, rng):
                 if not all(isinstance(k, DerivationTree) and isinstance(v, DerivationTree) for k, v in args.items()):
                     ctx.count("insitu_substitute_with_variable_keys_skipped")
                     continue
-                exp = subst_model(m, {k.id: TM.snap(v) for k, v in args.items()})
+                exp = subst_model(m, [(k.id, TM.snap(v)) for k, v in args.items()])
             got = TM.snap(out)
             eq(got, exp, f"in-situ {op} result structure")
             if TM.snap(t) != m:
